@@ -4,6 +4,7 @@ import (
 	"context"
 	"encoding/hex"
 	"fmt"
+	"os"
 	"strings"
 	"testing"
 	"time"
@@ -72,6 +73,18 @@ func c16Shape(name string) []int {
 		return s
 	case "young":
 		return rep(2, c16B)
+	case "slow-then-fast": // the old part of the chain at the nominal block time, the recent part much faster
+		s := rep(13, c16B)
+		for i := 6; i < len(s); i++ {
+			s[i] = 1
+		}
+		return s
+	case "fast-then-slow":
+		s := rep(13, 1)
+		for i := 6; i < len(s); i++ {
+			s[i] = c16B
+		}
+		return s
 	case "bursty":
 		s := rep(13, 1)
 		for i := 1; i < len(s); i += 2 {
@@ -228,6 +241,25 @@ func c16Exec(t *testing.T, run *vk.Run, c c16Case) {
 					viol("head-fails", feat, "Head() failed: %v", hc.Err)
 				}
 				headErr = hc.Err
+				// the rest of the chain arrives by gossip (a no-op when Start already synced to the tip):
+				// with a recent local head Start asks nobody, and the tail is only re-estimated when a new
+				// head is learned
+				if fn := sub.verifier(); fn != nil {
+					order := []uint64{n} // the tip first: the tail is then re-estimated across the whole gap at once
+					for h := uint64(1); h < n; h++ {
+						order = append(order, h)
+					}
+					for _, h := range order {
+						hd := chain[h]
+						dc := vk.Spawn(func() (*vk.H, error) { return nil, fn(ctx, hd) })
+						for j := 0; j < 60 && !dc.Done(); j++ {
+							vk.Advance(time.Second)
+						}
+						if dc.Panic != "" {
+							viol("panic", feat, "gossip delivery of %d panicked: %s", h, dc.Panic)
+						}
+					}
+				}
 				// let the sync loop finish
 				vk.Advance(5 * time.Second)
 				_ = sy.Stop(bg)
@@ -248,6 +280,9 @@ func c16Exec(t *testing.T, run *vk.Run, c c16Case) {
 			// store invariants
 			after := storedHeights(ds, st)
 			head, tail := st.VerifPointers()
+			if os.Getenv("VERIF_DEBUG") != "" {
+				fmt.Printf("DEBUG step %d: before=%v after=%v tail=%d head=%d startErr=%v\n", i, before, after, tail, head, startErr)
+			}
 			run.Distinct(fmt.Sprintf("%s|startErr=%v|headErr=%v|tail=%d|head=%d", feat, startErr != nil, headErr != nil, tail, head))
 			if len(after) > 0 {
 				if tail < 1 || tail > head {
@@ -341,7 +376,7 @@ func c16ParamSets(n uint64, thorough bool) []c16Params {
 func TestC16(t *testing.T) {
 	run := vk.NewRun("C16", "model_checking")
 	defer run.Finish()
-	run.SetRule("real Syncer through its public API (NewSyncer, Start, Head, Stop, reconfigure, Start) on a real store, honest getter serving the chain: every Validate-accepted parameter set from PruningWindow {0,w/2,w,3w} x SyncFromHeight {0,1,3,6,h0,N,N+3} x SyncFromHash {none, below tail, mid, head, unknown} x blockTime {unset, b, 10b} x trustingPeriod {small, large}, x chain shape {uniform, fast, slow, halted mid, halted tip, young, bursty} x store {empty, [1..h0], [4..h0]}; plus every ordered pair of a reduced parameter list as a reconfiguration; distinct = (shape, store, policy, blockTime set?, step, outcome, resulting tail/head)")
+	run.SetRule("real Syncer through its public API (NewSyncer, Start, Head, gossip delivery of the whole chain, Stop, reconfigure, Start) on a real store, honest getter serving the chain: every Validate-accepted parameter set from PruningWindow {0,w/2,w,3w} x SyncFromHeight {0,1,3,6,h0,N,N+3} x SyncFromHash {none, below tail, mid, head, unknown} x blockTime {unset, b, 10b} x trustingPeriod {small, large}, x chain shape {uniform, fast, slow, halted mid, halted tip, young, bursty, slow-then-fast, fast-then-slow} x store {empty, [1..h0], [4..h0]}; plus every ordered pair of a reduced parameter list as a reconfiguration; distinct = (shape, store, policy, blockTime set?, step, outcome, resulting tail/head)")
 	run.Assume("Start/Head may fail only for an unknown SyncFromHash or a SyncFromHeight above the network head")
 
 	var rc c16Case
@@ -354,7 +389,7 @@ func TestC16(t *testing.T) {
 		return
 	}
 	dl := vk.NewDeadline(vk.Pick(run, 10*time.Minute, 120*time.Minute))
-	shapes := []string{"uniform", "fast", "slow", "halted-mid", "halted-tip", "young", "bursty"}
+	shapes := []string{"uniform", "fast", "slow", "halted-mid", "halted-tip", "young", "bursty", "slow-then-fast", "fast-then-slow"}
 	stores := []string{"empty", "full", "pruned"}
 	var cases []c16Case
 	for _, sh := range shapes {
